@@ -13,43 +13,15 @@
  * Positive control: on the un-attacked run honest data must arrive as APP_DATA after completion. */
 #include "mx_surgeon.h"
 
-typedef struct { const char *name; mx_cfg cfg; int resumed; } scn_t;
-static scn_t scns[200]; static int nscn;
-
-static void add_scn(const char *name, int ver, uint16_t suite, int ca, int resumed, int ticket)
-{
-    scn_t *s = &scns[nscn++]; memset(s, 0, sizeof *s); s->name = name; s->cfg.ver = ver; s->cfg.suite = suite; s->cfg.clientAuth = ca; s->resumed = resumed; s->cfg.useTicket = ticket;
-}
-static void build_scenarios(void)
-{
-    add_scn("rsa", MX_TLS11, 0x002f, 0, 0, 0);
-    add_scn("ecdhe-rsa-gcm", MX_TLS12, 0xc02f, 0, 0, 0);
-    add_scn("psk-cbc", MX_TLS12, 0x00ae, 0, 0, 0);
-    add_scn("ecdhe-ecdsa-cbc-ca", MX_TLS12, 0xc023, 1, 0, 0);
-    add_scn("rsa-gcm-resumed", MX_TLS12, 0x009c, 0, 1, 0);
-    add_scn("rsa-cbc-ticket", MX_TLS12, 0x003c, 0, 1, 1);
-    add_scn("aes128gcm", MX_TLS13, 0x1301, 0, 0, 0);
-    add_scn("chacha-ca", MX_TLS13, 0x1303, 1, 0, 0);
-    add_scn("aes256gcm-resumed", MX_TLS13, 0x1302, 0, 1, 0);
-    add_scn("rsa", MX_DTLS10, 0x002f, 0, 0, 0);
-    add_scn("ecdhe-rsa-gcm", MX_DTLS12, 0xc02f, 0, 0, 0);
-    add_scn("psk-cbc-resumed", MX_DTLS12, 0x00ae, 0, 1, 0);
-    if (vf_thorough) {
-        for (int v = 0; v < MX_NVER; v++) for (int i = 0; i < MX_NSUITES; i++) {
-            if (!mx_suite_ok_for(&mx_suites[i], v)) continue;
-            add_scn(mx_suites[i].name, v, mx_suites[i].id, 0, 0, 0);
-            if (mx_suites[i].auth != MX_AUTH_PSK && (i % 3) == 0) add_scn(mx_suites[i].name, v, mx_suites[i].id, 1, 0, 0);
-            if ((i % 4) == 1) add_scn(mx_suites[i].name, v, mx_suites[i].id, 0, 1, v != MX_TLS13 && (i & 1));
-        }
-    }
-}
+#include "mx_scn.h"
+typedef mx_scn scn_t;
 
 /* ---- injections ---- */
 enum { INJ_NONE = 0, INJ_PLAIN, INJ_RANDOM, INJ_FOREIGN, INJ_REFLECT, INJ_HSKEY, INJ_HSKEY_OUTER22, INJ_ENCODE, INJ_N };
 static const char *injname[] = { "none", "plaintext-record", "random-body-record", "foreign-connection-record", "reflected-record", "hs-key-sealed-appdata", "hs-key-sealed-appdata-outer22", "encode-before-complete" };
 typedef struct { int kind; int vmaj, vmin; int len; int epoch; } inj_t;
 
-static unsigned char *foreign[2]; static int foreignlen[2];   /* app-data records captured from another connection of the same scenario, per direction */
+static unsigned char **foreign; static int *foreignlen;   /* app-data records captured from another connection of the same scenario, per direction */
 
 static int mk_header(unsigned char *o, int dtls, int type, int vmaj, int vmin, int epoch, unsigned long long seq, int len)
 {
@@ -196,21 +168,18 @@ static void build_catalogue(int ver)
     if (ver == MX_TLS13) { catalogue[ncat++] = (inj_t) { INJ_HSKEY }; catalogue[ncat++] = (inj_t) { INJ_HSKEY_OUTER22 }; }
 }
 
-typedef struct { const scn_t *scn; int target; int ncuts; long idx; } drv_t;
 static long g_case_idx;
-static void at_cut(void *ctx, mx_conn *k, int dir)
+static void at_cut(mx_walk *w, mx_conn *k, int cut)
 {
-    drv_t *d = ctx;
-    /* a cut point: a record was just delivered to the target (or cut 0 before anything) */
-    if (dir >= 0 && ((dir == 0) != (d->target == MX_SERVER))) return;
-    int cut = d->ncuts++;
+    foreign = w->foreign; foreignlen = w->foreignlen;
     for (int j = 0; j < ncat; j++) {
         long idx = g_case_idx++;
         if (!vf_mine(idx)) continue;
-        child_arg a = { k, d->target, cut, &catalogue[j] };
-        M.scn = d->scn; M.target = d->target; M.inj = &catalogue[j]; M.cut = cut; M.injected = 0; M.sentlen[0] = M.sentlen[1] = 0;
-        snprintf(M.desc, sizeof M.desc, "scn=%s/%s/ca%d/res%d target=%s cut=%d inj=%s:%d.%d:len%d:ep%d", verclass(d->scn->cfg.ver), d->scn->name, d->scn->cfg.clientAuth, d->scn->resumed,
-                 d->target ? "server" : "client", cut, injname[catalogue[j].kind], catalogue[j].vmaj, catalogue[j].vmin, catalogue[j].len, catalogue[j].epoch);
+        child_arg a = { k, w->target, cut, &catalogue[j] };
+        M.scn = w->scn; M.target = w->target; M.inj = &catalogue[j]; M.cut = cut; M.injected = 0;
+        for (int d = 0; d < 2; d++) { memcpy(M.sent[d], w->sent[d], w->sentlen[d]); M.sentlen[d] = w->sentlen[d]; }
+        char sd[128]; mx_scn_desc(sd, sizeof sd, w->scn, w->target);
+        snprintf(M.desc, sizeof M.desc, "scn=%s cut=%d inj=%s:%d.%d:len%d:ep%d", sd, cut, injname[catalogue[j].kind], catalogue[j].vmaj, catalogue[j].vmin, catalogue[j].len, catalogue[j].epoch);
         if (vf_case && strcmp(vf_case, M.desc)) continue;
         if (j == 1 && cut < 3) vf_sample("%s", M.desc);
         vf_fork_case(child_run, &a, "c01", M.desc, 60);
@@ -219,52 +188,23 @@ static void at_cut(void *ctx, mx_conn *k, int dir)
 
 static void run_scenario(const scn_t *s, int target)
 {
-    sslSessionId_t *sid = NULL; matrixSslNewSessionId(&sid, NULL);
-    mx_conn k;
+    mx_walk w;
     build_catalogue(s->cfg.ver);
-    /* a separate connection of the same scenario supplies "foreign" application records */
-    for (int d = 0; d < 2; d++) { free(foreign[d]); foreign[d] = NULL; foreignlen[d] = 0; }
-    {
-        sslSessionId_t *sid2 = NULL; matrixSslNewSessionId(&sid2, NULL); mx_conn f;
-        if (mx_conn_open(&f, &s->cfg, sid2) == 0) {
-            mx_conn_run(&f, NULL, NULL, 300);
-            if (mx_conn_established(&f)) {
-                unsigned char p[64]; int w0 = f.wirelen[0], w1 = f.wirelen[1];
-                mx_payload(p, 48, 0x0f0f, 0, 1); mx_send(&f.c, p, 48); mx_payload(p, 48, 0x0f0f, 1, 1); mx_send(&f.s, p, 48); mx_conn_run(&f, NULL, NULL, 50);
-                foreignlen[0] = f.wirelen[0] - w0; foreign[0] = malloc(foreignlen[0] + 1); memcpy(foreign[0], f.wire[0] + w0, foreignlen[0]);
-                foreignlen[1] = f.wirelen[1] - w1; foreign[1] = malloc(foreignlen[1] + 1); memcpy(foreign[1], f.wire[1] + w1, foreignlen[1]);
-            }
-            mx_conn_close(&f);
-        }
-        matrixSslDeleteSessionId(sid2);
+    int cuts = mx_scn_walk(&w, s, target, at_cut, NULL, 1);
+    if (vf_shard == 0) {
+        if (s->resumed) vf_stat(w.really_resumed ? "resumed_scenarios_really_resumed" : "resumed_scenarios_fell_back_to_full", 1);
+        if (cuts > 0) vf_statf(cuts, "cuts_%s", verclass(s->cfg.ver));
+        vf_stat("scenarios", 1);
     }
-    if (s->resumed) {
-        /* priming full handshake fills sid (session id, ticket or TLS 1.3 PSK) */
-        if (mx_conn_open(&k, &s->cfg, sid) != 0) { vf_incon("priming open failed %s", s->name); return; }
-        mx_conn_run(&k, NULL, NULL, 300);
-        if (!mx_conn_established(&k)) vf_incon("priming handshake failed for %s/%s", verclass(s->cfg.ver), s->name);
-        /* TLS 1.3: NewSessionTicket arrives after completion; already pumped */
-        mx_conn_close(&k);
-    }
-    if (mx_conn_open(&k, &s->cfg, sid) != 0) { vf_incon("open failed %s", s->name); return; }
-    drv_t d = { s, target, 0, 0 };
-    at_cut(&d, &k, -1);                       /* cut 0: before any record reached the target */
-    mx_conn_run(&k, at_cut, &d, 300);
-    if (s->resumed && mx_conn_established(&k)) { if (matrixSslIsResumedSession(k.s.ssl)) vf_stat("resumed_scenarios_really_resumed", 1); else vf_stat("resumed_scenarios_fell_back_to_full", 1); }
-    /* cut points after completion: one more exchange so that post-handshake injections are exercised */
-    vf_statf(d.ncuts, "cuts_%s", verclass(s->cfg.ver));
-    mx_conn_close(&k);
-    matrixSslDeleteSessionId(sid);
 }
 
 int main(int argc, char **argv)
 {
     vf_init(argc, argv); mx_global_init(); mx_keys_load();
-    build_scenarios();
-    for (int i = 0; i < nscn; i++) for (int target = 0; target < 2; target++) {
+    mx_scn_build(vf_thorough);
+    for (int i = 0; i < mx_nscn; i++) for (int target = 0; target < 2; target++) {
         mx_entropy_seed(vf_seed + i * 2 + target);
-        run_scenario(&scns[i], target);
-        vf_stat("scenarios", 1);
+        run_scenario(&mx_scns[i], target);
     }
     mx_keys_free(); matrixSslClose();
     vf_flush();
